@@ -21,7 +21,7 @@ for s in seeds:
     for p in props:
         t0 = time.time()
         r = subprocess.run([os.path.join(V, 'bin', 'govc'), '-props', p, '-overlay-patch', os.path.join(V, 'seeded', s, 'patch.diff'),
-                            '-evidence', '/tmp/ev_seed', '-replaydir', '/tmp/rp_seed', '-timeout', '5', '-j', '14', '-no-mutants'],
+                            '-evidence', '/tmp/ev_seed', '-replaydir', '/tmp/rp_seed', '-timeout', '5', '-j', os.environ.get('SEED_J', '14'), '-no-mutants'],
                            capture_output=True, text=True)
         lines = r.stdout.splitlines()
         viol = [l for l in lines if l.startswith('VIOLATION') and ('property=' + p) in l]
